@@ -599,6 +599,54 @@ def tree_point(t, xs):
     return fexact(t[1], tree_point(t[2], xs), tree_point(t[3], xs))
 
 
+def tree_ivl_exact(t, box):
+    """natural interval extension in exact arithmetic; None when a divisor contains zero"""
+    k = t[0]
+    if k == "v":
+        return box[t[1]]
+    if k == "n":
+        return (F(t[1]), F(t[1]))
+    if k == "g":
+        a = tree_ivl_exact(t[1], box)
+        return None if a is None else (-a[1], -a[0])
+    a, b = tree_ivl_exact(t[2], box), tree_ivl_exact(t[3], box)
+    if a is None or b is None:
+        return None
+    return pbx.ivl_hull(t[1], a[0], a[1], b[0], b[1])
+
+
+def ginv_exact(vals, ws):
+    """for every grid level p: the smallest value whose cumulated weight reaches p (the last value when none does);
+    None where binary64 cumulation may decide the level the other way (within 2^-40)"""
+    order = sorted(range(len(vals)), key=lambda j: vals[j])
+    cums, acc = [], F(0)
+    for j in order:
+        acc += ws[j]
+        cums.append((acc, vals[j]))
+    eps = F(1, 2 ** 40)
+    cs = [c for c, _ in cums]
+    out = []
+    import bisect
+    for fp in pvals_F():
+        i = bisect.bisect_left(cs, fp)          # first cum >= p
+        near = (i < len(cs) and cs[i] - fp <= eps) or (i > 0 and fp - cs[i - 1] <= eps)
+        if near:
+            out.append(None)
+        else:
+            out.append(cums[i][1] if i < len(cs) else cums[-1][1])
+    return out
+
+
+_PVF = None
+
+
+def pvals_F():
+    global _PVF
+    if _PVF is None:
+        _PVF = [F(p) for p in pvals()]
+    return _PVF
+
+
 def pts_of(v, rng):
     """a few points of the interval [lo, hi] (exact)"""
     lo, hi = F(v[0]), F(v[1])
@@ -633,7 +681,7 @@ def pairing(dep, n, rng):
 def sub_result_check(spec, inp, res, exact, depth, rng):
     """None, or a witness that an exactly computed sub-result lies outside the real result"""
     f = spec["f"]
-    scale = max([abs(F(v)) for v in res[1] + res[2]] + [F(1)])
+    scale = F(max([abs(v) for v in res[1] + res[2]] + [1.0]))
     if f == "ivl-bin":
         x, y, op = inp["x"], inp["y"], spec["op"]
         def elems(v):
@@ -695,38 +743,40 @@ def sub_result_check(spec, inp, res, exact, depth, rng):
         op = spec["op"]
         if f == "pb-raw" and op == "mul" and dep == "f" and not (min(x[0]) >= 0 and min(y[0]) >= 0):
             return None                      # the raw Frechet rule is only used on non-negative factors
-        sxs, sys_ = selections_of(*x, rng, 1), selections_of(*y, rng, 1)
-        if dep == "i":
-            if n > 8:
-                return None
-            for sx in sxs:
-                for sy in sys_:
-                    if op == "div" and any(v == 0 for v in sy):
-                        continue
-                    z = sorted(fexact(op, a, b) for a in sx for b in sy)
-                    if len(res[1]) == n * n:
-                        idx = list(range(n * n))
-                    else:
-                        idx = [k * (n + 1) for k in range(n)] if n > 1 else [0]
-                    for k, j in enumerate(idx):
-                        if not inside(z[j], res[1][k], res[2][k], exact, scale, depth):
-                            return {"why": "precise-sub-box", "dep": dep, "step": k, "value": float(z[j]), "result": [res[1][k], res[2][k]]}
+        if dep == "i" and n > 8:
             return None
-        for sx in sxs:
-            for sy in sys_:
-                if op == "div" and any(v == 0 for v in sy):
-                    continue
-                for sg in pairing(dep, n, rng):
-                    z = sorted(fexact(op, sx[m], sy[sg[m]]) for m in range(n))
-                    for k in range(n):
-                        if not inside(z[k], res[1][k], res[2][k], exact, scale, depth):
-                            return {"why": "precise-sub-box", "dep": dep, "step": k, "value": float(z[k]),
-                                    "result": [res[1][k], res[2][k]]}
+        # precise sub-boxes: (left, left), (right, right), (a mixed selection, another one)
+        sel = lambda v: sorted(rng.choice([a, b]) for a, b in zip(v[0], v[1]))
+        pairs = [(list(x[0]), list(y[0])), (list(x[1]), list(y[1])), (sel(x), sel(y)), (list(x[0]), list(y[1]))]
+        if exact:
+            conv, RL, RR = (lambda v: v), res[1], res[2]           # integer / dyadic data: binary64 + - * are exact
+            fo = PYOPS[op]
+            ok = lambda v, lo, hi: lo <= v <= hi
+        else:
+            conv = lambda v: [F(a) for a in v]
+            RL, RR = [F(a) for a in res[1]], [F(a) for a in res[2]]
+            fo = lambda a, b: fexact(op, a, b)
+            ok = lambda v, lo, hi: pbx.tol_le(lo, v, scale, depth) and pbx.tol_le(v, hi, scale, depth)
+        for sx, sy in pairs:
+            if op == "div" and any(v == 0 for v in sy):
+                continue
+            sx, sy = conv(sx), conv(sy)
+            if dep == "i":
+                z = sorted(fo(a, b) for a in sx for b in sy)
+                idx = list(range(n * n)) if len(RL) == n * n else ([k * (n + 1) for k in range(n)] if n > 1 else [0])
+                zs = [[z[j] for j in idx]]
+            else:
+                zs = [sorted(fo(sx[m], sy[sg[m]]) for m in range(n)) for sg in pairing(dep, n, rng)]
+            for z in zs:
+                for k in range(len(z)):
+                    if not ok(z[k], RL[k], RR[k]):
+                        return {"why": "precise-sub-box", "dep": dep, "step": k, "value": float(z[k]), "result": [res[1][k], res[2][k]]}
         return None
     if f in ("pb-num", "pb-neg"):
         x = inp["x"]
         n = len(x[0])
-        for sx in selections_of(*x, rng, 1):
+        RL, RR = [F(a) for a in res[1]], [F(a) for a in res[2]]
+        for sx in ([F(a) for a in x[0]], [F(a) for a in x[1]]):
             if f == "pb-neg":
                 z = sorted(-a for a in sx)
             else:
@@ -735,7 +785,7 @@ def sub_result_check(spec, inp, res, exact, depth, rng):
                     continue
                 z = sorted((fexact(op, a, c) if spec["side"] == "R" else fexact(op, c, a)) for a in sx)
             for k in range(n):
-                if not inside(z[k], res[1][k], res[2][k], exact, scale, depth):
+                if not (RL[k] <= z[k] <= RR[k] if exact else (pbx.tol_le(RL[k], z[k], scale, depth) and pbx.tol_le(z[k], RR[k], scale, depth))):
                     return {"why": "precise-sub-box", "step": k, "value": float(z[k]), "result": [res[1][k], res[2][k]]}
         return None
     if f == "pb-agg":
@@ -749,8 +799,44 @@ def sub_result_check(spec, inp, res, exact, depth, rng):
                 return {"why": "operand-" + ("not-inside-envelope" if spec["agg"] == "env" else "does-not-contain-imposition"),
                         "operand": i, **w}
         return None
+    if f == "stack":
+        n = len(inp["lo"])
+        w = spec["weights"]
+        ws = [F(1 / n)] * n if w is None else [F(float(v)) for v in w]
+        for side, vals in ((1, inp["lo"]), (2, inp["hi"])):
+            exp = ginv_exact([F(v) for v in vals], ws)
+            for k, e in enumerate(exp):
+                if e is not None and F(res[side][k]) != e:
+                    return {"why": "generalised-inverse", "bound": "left" if side == 1 else "right", "step": k,
+                            "expected": float(e), "result": res[side][k]}
+        return None
+    if f == "slice":
+        if spec["strategy"] != "direct" and spec.get("repeated"):
+            return None
+        vs = [as_box(k, v) for k, v in zip(spec["kinds"], inp["vars"])]
+        pv = pvals_F()
+        cuts = []
+        for a in slice_levels(spec["k"]):
+            d = [abs(p - F(a)) for p in pv]
+            cuts.append(d.index(min(d)))
+        los, his = [], []
+        for row in itertools.product(cuts, repeat=len(vs)):
+            box = [(F(v[0][i]), F(v[1][i])) for v, i in zip(vs, row)]
+            im = tree_ivl_exact(spec["tree"], box)
+            if im is None:
+                return None
+            los.append(im[0]); his.append(im[1])
+        n = len(los)
+        ws = [F(1 / n)] * n
+        for side, vals in ((1, los), (2, his)):
+            exp = ginv_exact(vals, ws)
+            for k, e in enumerate(exp):
+                if e is not None and not (pbx.tol_le(e, F(res[side][k]), scale, depth) and pbx.tol_le(F(res[side][k]), e, scale, depth)):
+                    return {"why": "stack-of-cut-images", "bound": "left" if side == 1 else "right", "step": k,
+                            "expected": float(e), "result": res[side][k]}
+        return None
     if f == "cut":
-        pv = [F(p) for p in pvals()]
+        pv = pvals_F()
         a = F(spec["alpha"])
         d = [abs(p - a) for p in pv]
         m = min(d)
@@ -1330,21 +1416,44 @@ def run(ctx: core.Check):
             if w is not None:
                 where.append((ci, ri))
                 reqs.append(w)
-    replies = core.model_batch("C12", reqs)
+    # the model driver runs in parallel with the real code (three driver processes, requests interleaved)
+    import threading
+    NPROC = 3
+    chunks = [reqs[i::NPROC] for i in range(NPROC)]
+    outs, errs = [None] * NPROC, []
+
+    def drive(i):
+        try:
+            outs[i] = core.model_batch("C12", chunks[i])
+        except BaseException as e:  # noqa
+            errs.append(e)
+    threads = [threading.Thread(target=drive, args=(i,)) for i in range(NPROC)]
+    for t in threads:
+        t.start()
+    done = [oracle_phase(ctx, c) for c in cases]
+    for t in threads:
+        t.join()
+    if errs:
+        raise errs[0]
+    replies = [None] * len(reqs)
+    for i in range(NPROC):
+        replies[i::NPROC] = outs[i]
     model = {}
     for (ci, ri), rep in zip(where, replies):
         model[(ci, ri)] = parse_model(rep)
     for ci, c in enumerate(cases):
-        check_case(ctx, c, [model.get((ci, ri)) for ri in range(len(c["runs"]))])
+        tie_phase(ctx, c, done[ci], [model.get((ci, ri)) for ri in range(len(c["runs"]))])
 
 
 def check_case(ctx, c, models, verbose=False):
-    spec, runs, exact = c["spec"], c["runs"], c["exact"]
-    stream = c["stream"]
-    ctx.count((json.dumps(spec, sort_keys=True, default=str), json.dumps(runs, sort_keys=True, default=str)), c["nontrivial"], stream)
-    impls = [impl(spec, inp) for inp in runs]
+    impls = oracle_phase(ctx, c)
+    tie_phase(ctx, c, impls, models, verbose)
+
+
+def tie_phase(ctx, c, impls, models, verbose=False):
+    """every run against the model; then the exact model results of the pair against each other"""
+    spec, runs, exact, stream = c["spec"], c["runs"], c["exact"], c["stream"]
     dep = depth_of(spec)
-    # ---- tie: every run against the model
     for inp, im, mo in zip(runs, impls, models):
         if mo is None:
             continue
@@ -1367,8 +1476,34 @@ def check_case(ctx, c, models, verbose=False):
             print("input :", json.dumps(short(inp)))
             print("impl  :", pbx.js(im[:3]) if im[0] == "ok" else im)
             print("model :", model_js(mo) if mo is not None else "(oracle only)")
+    # the exact model must be isotone as well (no rounding to hide behind)
+    if all(m is not None and m[0] == "ok" for m in models) and all(im[0] == "ok" and finite(im) for im in impls) \
+            and all(in_domain(spec, inp) for inp in runs):
+        for i in range(len(runs) - 1):
+            w = contained_model(models[i], models[i + 1])
+            if w is not None:
+                ctx.fail(features(spec, {"check": "containment-exact-model", "symptom": "not-contained:" + w["why"]}),
+                         {"spec": spec, "runs": runs, "exact": exact, "stream": stream, "witness": w},
+                         f"{stream}: in exact arithmetic the result for the contained operand is not inside the other one ({w['why']}, step {w.get('step')})")
+                return
+        ctx.bump("model-pairs-compared")
+
+
+def oracle_phase(ctx, c):
+    """runs the real code on every operand set of the case and evaluates the property on the results"""
+    spec, runs, exact = c["spec"], c["runs"], c["exact"]
+    stream = c["stream"]
+    ctx.count((json.dumps(spec, sort_keys=True, default=str), json.dumps(runs, sort_keys=True, default=str)), c["nontrivial"], stream)
+    impls = [impl(spec, inp) for inp in runs]
+    dep = depth_of(spec)
     ctx.sample({"stream": stream, "spec": spec, "runs": [short(r) for r in runs],
                 "impl": [pbx.js(i[:3]) if i[0] == "ok" else list(i) for i in impls]})
+    _oracle(ctx, c, impls, dep)
+    return impls
+
+
+def _oracle(ctx, c, impls, dep):
+    spec, runs, exact, stream = c["spec"], c["runs"], c["exact"], c["stream"]
     # ---- oracle on the real results
     case_json = {"spec": spec, "runs": runs, "exact": exact, "stream": stream}
     doms = [in_domain(spec, inp) for inp in runs]
@@ -1413,16 +1548,6 @@ def check_case(ctx, c, models, verbose=False):
                      f"({w['why']} bound, step {w.get('step')}: {w.get('narrow')} vs {w.get('wide')})")
             return
     ctx.bump("pairs-compared")
-    # the exact model must be isotone as well (no rounding to hide behind)
-    if all(m is not None and m[0] == "ok" for m in models):
-        for i in range(len(runs) - 1):
-            w = contained_model(models[i], models[i + 1])
-            if w is not None:
-                ctx.fail(features(spec, {"check": "containment-exact-model", "symptom": "not-contained:" + w["why"]}),
-                         {**case_json, "witness": w},
-                         f"{stream}: in exact arithmetic the result for the contained operand is not inside the other one ({w['why']}, step {w.get('step')})")
-                return
-        ctx.bump("model-pairs-compared")
 
 
 def replay(obj):
